@@ -210,12 +210,11 @@ func genC14(g *Gen) {
 		}
 	}
 	// quote characters that mean something to formatting / pattern functions
-	for _, q := range []rune{'%', '\\', '$', '{', '*', '^', '`', '|', 0xab} {
-		for _, s := range []string{"ABC", "", "a%sb", string(q), "x" + string(q) + string(q) + "y", "%d%%", "\\n$1{0}"} {
+	// ... and quote characters from every part of Latin-1 (one byte as a code point, two bytes in UTF-8: U+0080..U+00BF share
+	// their low byte with a continuation byte, U+00C0..U+00FF do not), from the rest of the BMP and from a supplementary plane
+	for _, q := range []rune{'%', '\\', '$', '{', '*', '^', '`', '|', 0xab, 0x80, 0xbf, 0xc0, 0xd7, 0xe9, 0xff, 0x100, 0x2018, 0xfffd, 0x1f4ac} {
+		for _, s := range []string{"ABC", "", "a%sb", string(q), "x" + string(q) + string(q) + "y", "%d%%", "\\n$1{0}", "a" + string(q) + "b", string(q) + "é×ÿ" + string(q) + string(q)} {
 			for _, st := range states {
-				if st == "expression" && q != '`' {
-					continue
-				}
 				g.Run("unusual quote characters", []Ev{{"op": "codec", "state": st, "s": cps(s), "q": int(q)}})
 				if st == "csv" {
 					g.Run("unusual quote characters", []Ev{{"op": "read", "state": st, "s": cps(s), "q": int(q), "tail": cpsR(tails[st][1])}})
